@@ -80,6 +80,9 @@ def _laws_pair(a, b):
     from annet.mesh.basemodel import merge
     bad = []
     va, vb = vars(a), vars(b)
+    # deep snapshots: vars() is the live attribute dict, and a shallow copy would share the set objects
+    import copy as _copy
+    sa, sb = _copy.deepcopy(dict(va)), _copy.deepcopy(dict(vb))
     r = _try(lambda: merge(a, b))
     conflict = False
     for f in ("add_path", "asnum", "bfd"):
@@ -105,7 +108,7 @@ def _laws_pair(a, b):
         if r2[0] != "ok" or r2[1] != res:
             bad.append("not-commutative")
     # inputs untouched
-    if vars(a) != va or vars(b) != vb:
+    if dict(vars(a)) != sa or dict(vars(b)) != sb:
         bad.append("inputs-mutated")
     return bad
 
@@ -627,8 +630,13 @@ def run_many(who, kind, which):
 
     def h(leaf, rr, session):
         n = leaf.match.n
-        leaf.addr = "10.0.%d.1/31" % n
-        rr.addr = "10.0.%d.0/31" % n
+        if kind == "indirect":
+            # a legal but non-canonical spelling (upper-case hex, zero-padded groups): the peer address is the canonical one
+            leaf.addr = "2001:DB8:0000:%d::0001/127" % n
+            rr.addr = "2001:DB8:0000:%d::0/127" % n
+        else:
+            leaf.addr = "10.0.%d.1/31" % n
+            rr.addr = "10.0.%d.0/31" % n
         leaf.asnum = 65000 + n
         rr.asnum = 64512
         session.families = {"ipv4_unicast"}
@@ -665,6 +673,10 @@ def check_many(cs):
         b = ends[i].get("rr1.dc")
         if a is None or b is None:
             return False, {"hub": hub, "leaf": ends[i], "pair": i}, "many:peer-missing", True
+        want_leaf, want_hub = ("2001:db8:0:%d::1" % i, "2001:db8:0:%d::" % i) if kind == "indirect" else ("10.0.%d.1" % i, "10.0.%d.0" % i)
+        if a["addr"] != want_leaf or b["addr"] != want_hub:
+            return False, {"pair": "rr1-leaf%d" % i, "hub_points_at": a["addr"], "leaf_address": want_leaf,
+                           "leaf_points_at": b["addr"], "hub_address": want_hub}, "many:peer-address-not-the-other-ends-address", True
         for f in ("families", "bfd", "add_path"):
             if a[f] != b[f]:
                 return False, {"pair": "rr1-leaf%d" % i, "field": f, "on_hub": a, "on_leaf": b, "set_only_for_leaf": which}, \
